@@ -4,6 +4,7 @@
 # 2. runs the property's quick check against the patched tree and prints what it reported
 D="$1"; MODE="$2"
 PROP=$(python3 -c "import json,sys; print(json.load(open('$D/meta.json'))['property'])")
+mkdir -p /root/dev          # scratch outside /repo and /verif
 WT=/root/dev/seedcheck
 if [ ! -d $WT ]; then git -C /repo worktree add -q --detach $WT HEAD; fi
 git -C $WT checkout -q --detach $(git -C /repo rev-parse HEAD) 2>/dev/null; git -C $WT checkout -q -- . ; git -C $WT clean -fdq
@@ -15,9 +16,9 @@ git apply "$D/patch.diff"
 /verif/tools/baseline.sh $WT >/root/dev/seed_bl.log 2>&1; BL=$?
 cd /verif
 if [ "$MODE" = "--inplace" ]; then
-  git -C /repo apply "$D/patch.diff" && timeout 1500 ./vf check $PROP > /root/dev/seed_vf.log 2>&1; VF=$?; git -C /repo checkout -- .
+  git -C /repo apply "$D/patch.diff" && PYVC_EVIDENCE_DIR=/root/dev/seed_evidence timeout 1500 ./vf check $PROP > /root/dev/seed_vf.log 2>&1; VF=$?; git -C /repo checkout -- .
 else
-  PYVC_REPO=$WT timeout 1500 ./vf check $PROP > /root/dev/seed_vf.log 2>&1; VF=$?
+  PYVC_EVIDENCE_DIR=/root/dev/seed_evidence PYVC_REPO=$WT timeout 1500 ./vf check $PROP > /root/dev/seed_vf.log 2>&1; VF=$?
 fi
 NV=$(grep -c "^VIOLATION" /root/dev/seed_vf.log)
 echo "RESULT $D prop=$PROP demo_pristine=$RC0 demo_patched=$RC1 baseline=$BL vf_exit=$VF violations=$NV"
